@@ -74,6 +74,30 @@ func (g *gen) realEncodings() {
 			g.runReal(c)
 		}
 	}
+	// HttpBody uploads / downloads of every media type over sockets
+	for i, ct := range bodyTypes {
+		for _, lane := range []string{"h1", "h1-chunked", "h2c"} {
+			for _, mode := range []string{"httpbody", "httpbody-reader"} {
+				c := &Case{Lane: lane, T: "http", Codec: mode, Shape: "upload", Limit: 64, CT: ct, Trunc: -1, Sched: "body-content-type", Msgs: [][]byte{g.rawPayload(i, 3*64+2)}, Reply: [][]byte{{}}}
+				build(c, bodyOpt{})
+				if lane != "h1" {
+					c.Cuts = g.randomCuts(len(c.Body))
+				}
+				g.runReal(c)
+			}
+			if lane == "h1-chunked" {
+				continue
+			}
+			for _, mode := range []string{"httpbody", "httpbody-writer"} {
+				c := &Case{Lane: lane, T: "http", Codec: mode, Shape: "download", CT: ct, Trunc: -1, Msgs: [][]byte{}, Sched: "body-content-type"}
+				for j, n := range []int{5, 0, 300, 7} {
+					c.Reply = append(c.Reply, mustMarshal(mkBody(ct, g.rawPayload(i+j, n))))
+				}
+				build(c, bodyOpt{})
+				g.runReal(c)
+			}
+		}
+	}
 	for round := 0; round < r.Pick(2, 10); round++ {
 		for _, lane := range []string{"grpc-go", "h2c"} {
 			gz := tcombo{"grpc", "gzip", ""}
